@@ -491,7 +491,7 @@ func runC07(c *vk.Ctx) {
 		"geo: points within a relative 1e-3 of a box edge / distance threshold are not decided",
 		"numeric/date ranges that run into C10's byte-wise enumeration blow-up are aborted by the step counter and left to C10",
 		"empty prefixes are not generated")
-	nCorp := c.Pick(240, 9000)
+	nCorp := c.Pick(240, 4000)
 	nQ := c.Pick(40, 50)
 	workers := runtime.NumCPU()
 	var wg sync.WaitGroup
